@@ -695,7 +695,8 @@ def run(chk: Check):
                 'varying (8 patterns) x {dv, fp}; general-information flags dyn_scan / diffusion toggled 0/1; refusals without '
                 'permit_truncated; file orders with the discarded records first / in the middle / last and the complete volumes '
                 'contiguous; every load also read through a handful of proxy slices (single volume, single slice, ranges, '
-                'negative steps); random tail: random / order-preserving / rotated permutations with random dropped tails; '
+                'negative steps); random tail: random / order-preserving / rotated permutations with random dropped tails, the tail dropped '
+                'either from the recorded order before permuting or (cut) from the permuted file, plus structured orders x cut tails; '
                 'a case is distinct by (fixture, record order, drop, strict, scaling, permit, factor scheme) and non-trivial '
                 'when the order is not the recorded one or a tail is dropped')
     chk.assumptions = ['record i of the PAR file describes REC slice i (nibabel ignores "index in REC file"); the harness '
